@@ -30,7 +30,11 @@ def from_json(j):
     if t == "timestamp":
         import datetime
         tz = datetime.timezone(datetime.timedelta(minutes=j.get("off", 0)))
-        return ct.TimestampType((datetime.datetime.fromtimestamp(0, datetime.timezone.utc) + datetime.timedelta(microseconds=j["us"])).astimezone(tz))
+        dt = (datetime.datetime.fromtimestamp(0, datetime.timezone.utc) + datetime.timedelta(microseconds=j["us"])).astimezone(tz)
+        if j.get("text"):
+            # built from its RFC 3339 text (the library parses the written offset), not from a datetime object
+            return ct.TimestampType(ct.StringType(dt.isoformat()))
+        return ct.TimestampType(dt)
     if t == "duration":
         import datetime
         return ct.DurationType(datetime.timedelta(microseconds=j["us"]))
